@@ -518,3 +518,8 @@ class Charge:
             self._frame.query(f"index not in {id_list}", inplace=True)
         else:
             self._frame = self.EMPTY_FRAME.copy()
+
+        if self._frame.empty:
+            # No particle left: '_array' may still hold an earlier conversion of the
+            # removed particles (see property 'array')
+            self._array = np.zeros_like(self._array)
